@@ -491,6 +491,13 @@ class SymNum:
         return "<sym>"
 
 
+class SymNpInt(SymNum):
+    """a symbolic integer carried by a numpy integer scalar (what Discrete.sample() returns):
+    the value is symbolic, the carrier type is what isinstance() sees"""
+    __slots__ = ()
+    carrier = 'numpy.int64'
+
+
 def _div(a, b):
     if a.sort() == z3.IntSort():
         a = z3.ToReal(a)
